@@ -1,3 +1,4 @@
+import Cctp.Spec.Toy
 import Cctp.Props.C03
 import Cctp.Lemmas.Ledger
 import Cctp.Lemmas.Frame
@@ -187,5 +188,8 @@ theorem receive_ledger_effect (ext : Ext) (cfg : Cfg) (st : Store) (led : Ledger
 
 /-! non-vacuity: the stated amount of a concrete module-addressed burn message is read off as 2^255+5 -/
 example : (Int.ofNat (2 ^ 255 + 5) : Int) > 0 := by decide
+
+/-! non-vacuity: in the toy world of Spec/Toy.lean an attested burn message for the module is received (and minted) -/
+example : ∃ o, handle Toy.ext Toy.cfg Toy.st Toy.led Toy.receive = .ok o := (Toy.isOk_iff _).mp (by decide +kernel)
 
 end Cctp.C04
